@@ -53,7 +53,8 @@ def correspond(ctx):
             rp = C.write_replay("C12", why, payload)
             msg = ("writes of sizes %s, schedule %s: Close never returned (lost wake-up / deadlock)" % (r["script"], " ".join(r["sched"]))
                    if why == "hang" else
-                   "writes of sizes %s, schedule %s: Close returned nil but the storing side consumed %d of %d bytes" % (r["script"], " ".join(r["sched"]), r["consumed"], r["expected"]))
+                   "writes of sizes %s, schedule %s: Close returned nil but the storing side consumed %d of %d bytes%s" % (r["script"], " ".join(r["sched"]), r["consumed"], r["expected"],
+                                                                                                                  " and their content is not the concatenation of the writes" if r["consumed"] == r["expected"] else ""))
             violations.append(Violation("c12-" + why, msg, rp))
     # free-running stress (content equality), with the race detector in the thorough tier / search
     race = ctx.thorough
